@@ -505,8 +505,18 @@ func genMatch(rng *core.Rand) string {
 		parts[i] = core.Hex(t.pre) + ":" + u + ":" + core.Hex(t.suf)
 	}
 	p := genPath(rng, w)
-	return fmt.Sprintf("matchfile %s %s %s %s %s %s", core.Hex(w.cwd), core.Hex(w.rootCfg), strings.Join(parts, ";"),
-		bits(rng.Chance(1, 6)), core.Hex(p), w.treeField())
+	pol := rng.Pick([]string{"0", "0", "0", "1", "L", "S", "M"})
+	line := fmt.Sprintf("matchfile %s %s %s %s %s %s", core.Hex(w.cwd), core.Hex(w.rootCfg), strings.Join(parts, ";"),
+		pol, core.Hex(p), w.treeField())
+	if rng.Chance(1, 4) {
+		sp := [][]string{{".php"}, {".txt"}, {".TXT", ".html"}, {"sub"}, {".t"}, {"/"}, {"x", ".txt"}}[rng.Intn(7)]
+		line += " " + showList(sp)
+		if rng.Chance(1, 2) {
+			p2 := rng.Pick([]string{"/a.txt/more", "/sub/b.TXT/x/y", "/a.txt", "/index.html/../a.txt/z", "/sub/b.txt/", "/x.php/a.txt/p"})
+			line = strings.Replace(line, " "+core.Hex(p)+" ", " "+core.Hex(p2)+" ", 1)
+		}
+	}
+	return line
 }
 
 func randFrom(rng *core.Rand, alpha []string, max int) string {
